@@ -701,6 +701,21 @@ impl Engine for ExecEngine {
                     (Ok(a), Ok(b)) => {
                         nontrivial = true;
                         if let Some(i) = (0..a.len()).find(|i| if exact { !same_exact(&a[*i], &b[*i]) } else { !same_tolerant(&a[*i], &b[*i]) }) {
+                            if cfg.threads > 1 {
+                                // More worker threads legitimately change the accumulation order, and a
+                                // discontinuous operator downstream (Mod, Floor, Round, a comparison, ArgMax ...)
+                                // can turn the last bit into a different answer. Before blaming the strategy, run
+                                // the *reference* strategy (not prepacked) with the same thread count: if this run
+                                // agrees with that one, the thread count alone made the difference.
+                                let same_pool = RunCfg { threads: cfg.threads, ..reference_cfg() };
+                                executions += 1;
+                                if let Ok(Ok(c)) = self.run_once(&loaded, &held, &out_ids, &same_pool, ctx) {
+                                    if c.len() == b.len() && c.iter().zip(b).all(|(x, y)| same_tolerant(x, y)) {
+                                        ctx.count("probe:differs_from_one_thread_reference_by_thread_count_only");
+                                        continue;
+                                    }
+                                }
+                            }
                             violation = Some(Violation::new(
                                 format!("{prop}/result-depends-on-strategy/{}", blame(cfg)),
                                 format!(
